@@ -61,6 +61,7 @@ type HarnessCfg struct {
 }
 
 type PropCfg struct {
+	SharedFiles []string               `json:"shared_files"` // harness files of other properties (relative to harness/<id>/)
 	RegenCheck  bool                   `json:"regen_check"`
 	Generators  []string               `json:"generators"`
 	Description string                 `json:"description"`
@@ -129,6 +130,19 @@ func loadHarnessFiles(id string) ([]harnessFile, error) {
 	var cfg PropCfg
 	if data, err := os.ReadFile(filepath.Join(verifDir, "harness", id, "config.json")); err == nil {
 		json.Unmarshal(data, &cfg)
+	}
+	for _, sf := range cfg.SharedFiles {
+		f := filepath.Join(verifDir, "harness", id, sf)
+		src, err := os.ReadFile(f)
+		if err != nil {
+			return nil, err
+		}
+		m := dirRe.FindSubmatch(src)
+		pm := pkgRe.FindSubmatch(src)
+		if m == nil || pm == nil {
+			return nil, fmt.Errorf("%s: missing //verif:dir or package clause", f)
+		}
+		out = append(out, harnessFile{path: filepath.Join(verifDir, "harness", id, "shared_"+filepath.Base(f)), dir: string(m[1]), pkgName: string(pm[1]), src: src})
 	}
 	for _, g := range cfg.Generators {
 		gf, ok := generators[g]
